@@ -3,6 +3,8 @@
 ID=$1; shift
 cd /repo && git apply /verif/seeded/$ID/patch.diff || { echo "patch does not apply to /repo"; exit 2; }
 cd /verif
+rm -rf .tmp/ev.save; mkdir -p .tmp/ev.save; cp evidence/*.json .tmp/ev.save/ 2>/dev/null
 for P in "$@"; do ./check $P 2>&1 | grep -E "VIOLATION|UNDECIDED|CRASH|UNSOUND|tier=" | head -8; echo "  -> $ID vs $P exit=$?"; done
 git -C /repo checkout -- .
+cp .tmp/ev.save/*.json evidence/ 2>/dev/null
 rm -f /verif/replays/*.json
